@@ -801,6 +801,12 @@ def exec_cli(w, repo):
         rc, out, err = run([find_bin(repo), "r/d", "r/d", "-exec", rec, "fixed", "{}", "+"], cwd=d, env=dict(os.environ, REC_LOG=log, REC_RC="0"))
         calls = [l.split("|", 1)[1] for l in open(log, errors="surrogateescape").read().splitlines()]
         res.append(("find r/d r/d -exec + delivers each visited path once: %r" % calls, "".join(c.replace("<fixed>", "") for c in calls) == "<r/d><r/d/-n><r/d><r/d/-n>"))
+        # -mindepth 2: consecutive entries of equal depth in different directories, the directories between them not visited
+        os.makedirs(os.path.join(d, "r", "e2")); open(os.path.join(d, "r", "e2", "z"), "w").close(); open(os.path.join(d, "r", "d", "x y"), "w").close()
+        for extra in ([], ["-depth"]):
+            rc, out, calls = go(["-mindepth", "2"] + extra + ["-execdir", rec, "fixed", "{}", "+"])
+            got = sorted((c.split("|")[0].rsplit("/", 2)[-2] + "/" + c.split("|")[0].rsplit("/", 1)[-1], c.split("|", 1)[1]) for c in calls)
+            res.append(("-mindepth 2 %s-execdir +: one invocation per directory, in it: %r" % (" ".join(extra + [""]), got), got == [("r/d", "<fixed><./-n><./x y>"), ("r/e2", "<fixed><./z>")]))
     return _battery(res)
 
 
@@ -909,6 +915,10 @@ def replace_cli(w, repo):
         rc, calls = go(["-I{}"], ["a{}b", "{}{}", "plain", "-{}"], b"l 1\n{}\n\nX\n")
         want = ["<a%sb><%s%s><plain><-%s>" % (l, l, l, l) for l in ("l 1", "{}", "X")]
         res.append(("-I{} argv per line %r" % calls, calls == want and rc == 0))
+        rc, calls = go(["-I{}"], ["{{}}", "f({{}, {})", "{{{}"], b"v w\n")
+        res.append(("-I{} with an occurrence right after R's own first byte %r" % calls, calls == ["<{v w}><f({v w, v w)><{{v w>"]))
+        rc, calls = go(["-Iab"], ["aab", "abab", "aabb"], b"Z\n")
+        res.append(("-Iab on aab / abab / aabb %r" % calls, calls == ["<aZ><ZZ><aZb>"]))
         rc, calls = go(["-IX"], ["aXb", "{}"], b"X X\n")
         res.append(("-IX with X in the line %r" % calls, calls == ["<aX Xb><{}>"]))
         rc, calls = go(["--replace=%%"], ["a%%", "%"], b"p q\n")
@@ -1162,10 +1172,11 @@ def regex_cli(w, repo):
         os.makedirs(os.path.join(d, start), exist_ok=True)
         open(os.path.join(d, start, name), "w").close()
         rc, out, err = run([find_bin(repo), start] + list(toks), cwd=d)
-        lines = out.decode(errors="replace").split("\n")
+        lines = out.decode("utf-8", errors="surrogateescape").split("\n")      # (a path may hold bytes that are not UTF-8)
         if rc not in (0, 1):
             return True, "find %s %s: rc=%d (%s)" % (start, " ".join(toks), rc, err.decode(errors="replace").strip()[:120])
-        got = ("reject", "") if (rc != 0 and not out) else ("accept", subj in lines)
+        shown = "".join("\ufffd" if 0xDC80 <= ord(c) <= 0xDCFF else c for c in subj)      # -print shows a byte that is not UTF-8 as U+FFFD (outside C07, which is about UTF-8 names)
+        got = ("reject", "") if (rc != 0 and not out) else ("accept", subj in lines or shown in lines)
         detail = "find %s %s: rc=%d, %r %s; reference: %s" % (start, " ".join(toks), rc, subj, "rejected" if got[0] == "reject" else ("selected" if got[1] else "not selected"),
                                                              "rejected (%s)" % want[1] if want[0] == "reject" else ("selected" if want[1] else "not selected"))
         return (got[0] != want[0] or (got[0] == "accept" and got[1] != want[1])), detail
@@ -1218,8 +1229,8 @@ def subject_cli(w, repo):
             os.symlink(target, full)
         elif not os.path.exists(full):
             open(full, "w").close()
-        rc, out, err = run([find_bin(repo), start, prim, glob], cwd=d)
-        got = path in out.decode(errors="replace").split("\n")
+        rc, out, err = run([find_bin(repo), start, prim, glob, "-print0"], cwd=d)       # (-print0: the entry's name may end in a newline)
+        got = path in out.decode(errors="replace").split("\0")
         return (got != want), "find %s %s %r: %r %s (rc=%d); reference: %s" % (start, prim, glob, path, "selected" if got else "not selected", rc, "selected" if want else "not selected")
 
 
